@@ -277,3 +277,499 @@ def search_c06(rng, n, S=None, kinds=None):
         if len(S.samples) < 2:
             S.samples.append(inp)
     return S
+
+
+# ------------------------------------------------------------------ C10
+
+COORD_LABELS = {"cart1": {"x": "_x"}, "cyl1": {"r": "_x"}, "sph1": {"r": "_x"},
+                "cart2": {"x": "_x", "y": "_y"}, "cyl2": {"r": "_x", "z": "_y"}, "pol2": {"r": "_x", "theta": "_y"},
+                "cart3": {"x": "_x", "y": "_y", "z": "_z"}, "cyl3": {"r": "_x", "theta": "_y", "z": "_z"},
+                "sph3": {"r": "_x", "theta": "_y", "phi": "_z"}}
+ALL_LABELS = ["x", "y", "z", "r", "theta", "phi"]
+
+
+def geometric_volumes(mc):
+    """closed-form geometric cell volumes from the face arrays (independent of the package)"""
+    f = mc.faces if mc.nl is None else [np.linspace(0.0, L, n + 1) for n, L in zip(*mc.nl)]
+    k = mc.kind
+    d = [np.diff(x) for x in f]
+    if k == "cart1":
+        return d[0]
+    if k == "cart2":
+        return d[0][:, None] * d[1][None, :]
+    if k == "cart3":
+        return d[0][:, None, None] * d[1][None, :, None] * d[2][None, None, :]
+    r2 = np.diff(f[0] ** 2) / 2
+    r3 = np.diff(f[0] ** 3) / 3
+    if k == "cyl1":
+        return r2 * 2 * np.pi
+    if k == "sph1":
+        return r3 * 2 * 2 * np.pi
+    if k == "cyl2":
+        return r2[:, None] * 2 * np.pi * d[1][None, :]
+    if k == "pol2":
+        return r2[:, None] * d[1][None, :]
+    if k == "cyl3":
+        return r2[:, None, None] * d[1][None, :, None] * d[2][None, None, :]
+    if k == "sph3":
+        dc = -(np.diff(np.cos(f[1])))
+        return r3[:, None, None] * dc[None, :, None] * d[2][None, None, :]
+
+
+def sph3_as_coded(mc):
+    f = mc.faces if mc.nl is None else [np.linspace(0.0, L, n + 1) for n, L in zip(*mc.nl)]
+    d = [np.diff(x) for x in f]
+    r3 = np.diff(f[0] ** 3) / 3
+    return r3[:, None, None] * (d[1] * 2 / np.pi)[None, :, None] * d[2][None, None, :]
+
+
+def search_c10(rng, n, S=None, kinds=None):
+    S = S or Search("C10")
+    for t in range(n):
+        kind = (kinds or KINDS)[t % len(kinds or KINDS)]
+        if rng.random() < 0.7:
+            mc = rand_mesh(rng, kind, nmax=6)
+        else:
+            dim = DIM[kind]
+            Ns = [rng.choice([1, 2, 3, 5]) for _ in range(dim)]
+            Ls = [rng.choice([1.0, 0.5, 3.0]) for _ in range(dim)]
+            mc = MeshCase(kind, [np.linspace(0, L, nn + 1) for nn, L in zip(Ns, Ls)], nl=(Ns, Ls))
+        m = mc.m
+        inp = case_of(mc)
+        S.sig(kind, tuple(mc.dims), "nl" if mc.nl else "faces")
+        faces = mc.faces if mc.nl is None else [np.linspace(0.0, L, nn + 1) for nn, L in zip(*mc.nl)]
+        # constructor laws
+        ok = list(m.dims) == [len(f) - 1 for f in faces]
+        S.check(ok, f"C10:dims:{kind}", "dims != number of cells", inp, list(map(int, m.dims)), [len(f) - 1 for f in faces])
+        for ax, nm in enumerate(["_x", "_y", "_z"][:mc.dim]):
+            fc = np.asarray(getattr(m.facecenters, nm), dtype=float)
+            cc = np.asarray(getattr(m.cellcenters, nm), dtype=float)
+            cs = np.asarray(getattr(m.cellsize, nm), dtype=float)
+            sc = max(1.0, float(np.max(np.abs(faces[ax]))))
+            S.check(fc.shape == faces[ax].shape and np.allclose(fc, faces[ax], rtol=0, atol=1e-9 * sc), f"C10:faces:{kind}", "face positions not as given", inp, fc.tolist(), faces[ax].tolist())
+            S.check(cc.shape == (len(faces[ax]) - 1,) and np.allclose(cc, 0.5 * (faces[ax][1:] + faces[ax][:-1]), rtol=0, atol=1e-9 * sc), f"C10:centres:{kind}", "centres not midway", inp, cc.tolist(), None)
+            exp = np.hstack([faces[ax][1] - faces[ax][0], np.diff(faces[ax]), faces[ax][-1] - faces[ax][-2]])
+            S.check(cs.shape == exp.shape and np.allclose(cs, exp, rtol=0, atol=1e-9 * sc) and np.all(cs > 0), f"C10:sizes:{kind}", "cell sizes != face differences (ghosts repeating end cells)", inp, cs.tolist(), exp.tolist())
+        V = np.asarray(m.cellvolume, dtype=float)
+        G = geometric_volumes(mc)
+        okv = V.shape == G.shape and np.allclose(V, G, rtol=1e-9, atol=0)
+        if not okv and kind == "sph3" and V.shape == G.shape and np.allclose(V, sph3_as_coded(mc), rtol=1e-9, atol=0):
+            S.check(False, "sph3-cellvolume-theta-factor", "SphericalGrid3D.cellvolume uses Δθ·2/π where the geometric factor is cosθ₁−cosθ₂",
+                    inp, V.ravel().tolist()[:8], G.ravel().tolist()[:8])
+        else:
+            S.check(okv, f"C10:volume:{kind}", "cellvolume is not the geometric cell volume", inp, V.ravel().tolist()[:16], G.ravel().tolist()[:16])
+        S.check(bool(np.all(V > 0)), f"C10:volume-positive:{kind}", "non-positive cell volume", inp, V.ravel().tolist()[:16], "> 0")
+        if len(S.samples) < 2:
+            S.samples.append(inp)
+    # labels: exhaustive over classes x labels x the three location objects
+    for kind in KINDS:
+        mc = rand_mesh(rng, kind, nmax=2)
+        for objname in ("cellsize", "cellcenters", "facecenters"):
+            obj = getattr(mc.m, objname)
+            for lab in ALL_LABELS:
+                S.evaluations += 1
+                exp = COORD_LABELS[kind].get(lab)
+                try:
+                    val = getattr(obj, lab)
+                    got = "ok"
+                except AttributeError:
+                    got = "AttributeError"
+                except Exception as ex:
+                    got = type(ex).__name__
+                if exp is None:
+                    ok = got == "AttributeError"
+                else:
+                    ok = got == "ok" and val is getattr(obj, exp)
+                if not ok:
+                    S.violations.append({"key": f"C10:label:{kind}:{lab}", "what": f"{objname}.{lab} on {kind}", "input": {"kind": kind, "object": objname, "label": lab},
+                                         "observed": got, "expected": exp or "AttributeError"})
+        S.sig(kind, "labels")
+    return S
+
+
+# ------------------------------------------------------------------ C13
+
+def _clip(x):
+    return np.maximum(0.0, x)
+
+
+SPEC = {
+    "CHARM": lambda r: np.where(r > 0, r * (3 * r + 1) / np.where(r > 0, (r + 1) ** 2, 1.0), 0.0),
+    "HCUS": lambda r: np.where(r > 0, 3 * r / np.where(r > 0, r + 2, 1.0), 0.0),
+    "HQUICK": lambda r: np.where(r > 0, 4 * r / np.where(r > 0, r + 3, 1.0), 0.0),
+    "ospre": lambda r: 1.5 * (r * r + r) / (r * r + r + 1),
+    "VanLeer": lambda r: (r + np.abs(r)) / (1 + np.abs(r)),
+    "VanAlbada1": lambda r: (r * r + r) / (r * r + 1),
+    "VanAlbada2": lambda r: 2 * r / (r * r + 1),
+    "MinMod": lambda r: _clip(np.minimum(1.0, r)),
+    "SUPERBEE": lambda r: _clip(np.maximum(np.minimum(2 * r, 1.0), np.minimum(r, 2.0))),
+    "Osher": lambda r: _clip(np.minimum(r, 1.5)),
+    "Sweby": lambda r: _clip(np.maximum(np.minimum(1.5 * r, 1.0), np.minimum(r, 1.5))),
+    "smart": lambda r: _clip(np.minimum(2 * r, np.minimum(0.25 + 0.75 * r, 4.0))),
+    "Koren": lambda r: _clip(np.minimum(2 * r, np.minimum((1 + 2 * r) / 3, 2.0))),
+    "MUSCL": lambda r: _clip(np.minimum(2 * r, np.minimum((1 + r) / 2, 2.0))),
+    "QUICK": lambda r: _clip(np.minimum(2 * r, np.minimum((3 + r) / 4, 2.0))),
+    "UMIST": lambda r: _clip(np.minimum(2 * r, np.minimum((1 + 3 * r) / 4, np.minimum((3 + r) / 4, 2.0)))),
+}
+CLIPPING = ["MinMod", "SUPERBEE", "Osher", "Sweby", "Koren", "MUSCL", "QUICK", "UMIST", "smart", "VanLeer"]
+
+
+def search_c13(rng, n_dense, S=None, n_tvd=60):
+    S = S or Search("C13")
+    from corr import limiter_points
+    for name in LIMITERS + ["NoSuchLimiter"]:
+        with contextlib.redirect_stdout(io.StringIO()) as out:
+            FL = pf.fluxLimiter(name)
+        spec = SPEC.get(name, SPEC["SUPERBEE"])
+        pts = np.array(limiter_points(rng, n_dense), dtype=float)
+        pts = pts[np.abs(pts) < 1e150]      # r*r overflows beyond; the property quantifies to 1e100
+        v = np.asarray(FL(pts), dtype=float)
+        S.sig(name)
+        inp = {"limiter": name}
+        S.check(v.shape == pts.shape and bool(np.all(np.isfinite(v))), f"C13:finite:{name}", "non-finite limiter value for finite r",
+                {**inp, "r": pts[~np.isfinite(v)][:5].tolist() if v.shape == pts.shape else None}, "nan/inf", "finite")
+        if v.shape == pts.shape:
+            e = spec(pts)
+            sc = np.maximum(1.0, np.abs(e))
+            bad = np.nonzero(~(np.abs(v - e) <= 1e-9 * sc))[0]
+            S.check(len(bad) == 0, f"C13:formula:{name}", "limiter differs from the published closed form",
+                    {**inp, "r": pts[bad][:5].tolist()}, v[bad][:5].tolist(), e[bad][:5].tolist())
+            pos = pts > 0
+            okb = np.all(v[pos] >= -1e-12) and np.all(v[pos] <= np.minimum(2 * pts[pos], 4.0) * (1 + 1e-12) + 1e-300)
+            S.check(bool(okb), f"C13:bounds:{name}", "0 <= psi(r) <= min(2r,4) violated for r>0", inp, None, None)
+            if name in CLIPPING:
+                S.check(bool(np.all(v[pts <= 0] == 0)), f"C13:nonpos:{name}", "clipping limiter does not vanish for r<=0", inp, None, 0)
+        one = float(np.asarray(FL(np.array(1.0))))
+        S.check(abs(one - 1.0) <= 1e-12, f"C13:one:{name}", "psi(1) != 1", inp, one, 1.0)
+        # shapes 0-3D, elementwise
+        for shp in [(), (3,), (2, 3), (2, 2, 2)]:
+            a = np.array(rand_vals(rng, shp)) if shp else np.array(rng.choice([-2.0, 0.5, 3.0]))
+            w = np.asarray(FL(a))
+            ok = w.shape == a.shape and np.allclose(w.ravel(), [float(np.asarray(FL(np.array(x)))) for x in a.ravel()], rtol=0, atol=0, equal_nan=True)
+            S.check(bool(ok), f"C13:elementwise:{name}", "limiter does not act elementwise / changes shape", {**inp, "shape": list(shp)}, list(w.shape), list(shp))
+    # TVD finite on small integer-valued fields (hit r in {0, ±1, ±2, ±3, inf} exactly)
+    for t in range(n_tvd):
+        kind = KINDS[t % len(KINDS)]
+        mc = rand_mesh(rng, kind, nmax=3, small_bias=True)
+        # uniform-ish faces give exact small ratios: use the mesh as generated and integer values
+        vals = rand_vals(rng, mc.gshape(), "ints")
+        arrs = rand_face_arrays(rng, mc)
+        name = LIMITERS[t % len(LIMITERS)]
+        with contextlib.redirect_stdout(io.StringIO()):
+            FL = pf.fluxLimiter(name)
+        inp = case_of(mc, limiter=name, face=arrs, cell=vals)
+        try:
+            r = pf.convectionTVDupwindRHSTerm(make_facevar(mc, arrs), full_cellvar(mc, vals), FL)
+            S.check(bool(np.all(np.isfinite(r))), f"C13:tvd-finite:{name}", "TVD correction is not finite for a finite field", inp, "nan/inf", "finite")
+        except Exception as ex:
+            S.check(False, f"C13:tvd-exception:{name}", repr(ex), inp, repr(ex), "no exception")
+        S.sig("tvd", kind, name)
+    return S
+
+
+# ------------------------------------------------------------------ C11
+
+def _two_point(name, w0, w1, p0, p1):
+    """reference two-point means with the same width weighting (independent of the package)"""
+    if name == "arithmetic":
+        return (w0 * p0 + w1 * p1) / (w0 + w1)
+    if name == "linear":
+        return (w1 * p0 + w0 * p1) / (w0 + w1)
+    if name == "harmonic":
+        if p0 == 0 or p1 == 0:
+            return 0.0
+        return (w0 + w1) / (w0 / p0 + w1 / p1)
+    if name == "geometric":
+        if p0 == 0 or p1 == 0:
+            return 0.0
+        return math.exp((w0 * math.log(p0) + w1 * math.log(p1)) / (w0 + w1))
+
+
+def face_pairs(mc, ax):
+    """for every face of axis ax (in C order of the face array): (idx of low cell, idx of high cell) in the ghosted array"""
+    rngs = []
+    for a, n in enumerate(mc.dims):
+        rngs.append(range(0, n + 1) if a == ax else range(1, n + 1))
+    out = []
+    for idx in itertools.product(*rngs):
+        lo = tuple(idx)
+        hi = tuple(i + 1 if a == ax else i for a, i in enumerate(idx))
+        out.append((lo, hi))
+    return out
+
+
+def search_c11(rng, n, S=None, kinds=None):
+    S = S or Search("C11")
+    fns = {"arithmetic": pf.arithmeticMean, "linear": pf.linearMean, "harmonic": pf.harmonicMean, "geometric": pf.geometricMean}
+    for t in range(n):
+        kind = (kinds or KINDS)[t % len(kinds or KINDS)]
+        mc = rand_mesh(rng, kind, nmax=4)
+        mode = rng.choice(["pos", "pos", "poszero", "mixed"])
+        if mode == "poszero":
+            vals = rand_vals(rng, mc.gshape(), "pos")
+            mask = np.array([rng.random() < 0.35 for _ in range(vals.size)]).reshape(vals.shape)
+            vals[mask] = 0.0
+        else:
+            vals = rand_vals(rng, mc.gshape(), mode)
+        phi = full_cellvar(mc, vals)
+        sizes = [np.asarray(getattr(mc.m.cellsize, nm), dtype=float) for nm in ["_x", "_y", "_z"][:mc.dim]]
+        S.sig(kind, tuple(mc.dims), mode)
+        for name, fn in fns.items():
+            if mode == "mixed" and name in ("harmonic", "geometric"):
+                continue
+            inp = case_of(mc, mean=name, cell=vals)
+            try:
+                out = fn(phi)
+            except Exception as ex:
+                S.check(False, f"C11:{name}:{kind}:exception", repr(ex), inp, repr(ex), "no exception")
+                continue
+            for ax, arr in enumerate(facevar_arrays(mc, out)):
+                arr = np.asarray(arr, dtype=float).ravel()
+                pairs = face_pairs(mc, ax)
+                if len(pairs) != arr.size:
+                    S.check(False, f"C11:{name}:{kind}:shape", "face array has the wrong size", inp, arr.size, len(pairs))
+                    continue
+                bad = None
+                for k, (lo, hi) in enumerate(pairs):
+                    p0, p1 = float(vals[lo]), float(vals[hi])
+                    w0, w1 = float(sizes[ax][lo[ax]]), float(sizes[ax][hi[ax]])
+                    ref = _two_point(name, w0, w1, p0, p1)
+                    v = arr[k]
+                    if not (math.isfinite(v) and abs(v - ref) <= 1e-9 * max(abs(ref), abs(p0), abs(p1), 1e-300)):
+                        bad = (k, lo, hi, p0, p1, v, ref); break
+                    if mode in ("pos", "poszero") and not (min(p0, p1) * (1 - 1e-12) - 1e-300 <= v <= max(p0, p1) * (1 + 1e-12)):
+                        bad = (k, lo, hi, p0, p1, v, "between"); break
+                zero_pair = bad is not None and bad[3] == 0 and bad[4] == 0
+                S.check(bad is None, f"C11:{name}:{'zeros' if zero_pair else 'value'}:{'1d' if mc.dim == 1 else 'nd'}",
+                        f"{name}Mean face value is not the width-weighted two-point mean of the adjacent cells" + (" (two adjacent zeros)" if zero_pair else ""),
+                        {**inp, "axis": ax, "face": None if bad is None else bad[0]}, None if bad is None else bad[5], None if bad is None else bad[6])
+            # ordering HM <= GM <= AM on positive data
+        if mode == "pos":
+            try:
+                H, G, A = pf.harmonicMean(phi), pf.geometricMean(phi), pf.arithmeticMean(phi)
+                for ax in range(mc.dim):
+                    h, g, a = [np.asarray(facevar_arrays(mc, X)[ax], dtype=float) for X in (H, G, A)]
+                    ok = np.all(h <= g * (1 + 1e-12)) and np.all(g <= a * (1 + 1e-12))
+                    S.check(bool(ok), f"C11:ordering:{kind}", "harmonic <= geometric <= arithmetic violated", case_of(mc, cell=vals), None, None)
+            except Exception as ex:
+                S.check(False, f"C11:ordering:{kind}:exception", repr(ex), case_of(mc, cell=vals), repr(ex), "no exception")
+        # upwind mean: donor cell / boundary value on inflow faces / average where u = 0
+        arrs = rand_face_arrays(rng, mc, rng.choice(["mixed", "zeros", "ints"]))
+        inp = case_of(mc, mean="upwind", cell=vals, face=arrs)
+        try:
+            out = pf.upwindMean(phi, make_facevar(mc, arrs))
+            for ax, arr in enumerate(facevar_arrays(mc, out)):
+                arr = np.asarray(arr, dtype=float).ravel()
+                uu = np.asarray(arrs[ax], dtype=float).ravel()
+                bad = None
+                for k, (lo, hi) in enumerate(face_pairs(mc, ax)):
+                    p0, p1 = float(vals[lo]), float(vals[hi])
+                    avg = 0.5 * (p0 + p1)
+                    if uu[k] > 0:
+                        ref = avg if lo[ax] == 0 else p0
+                    elif uu[k] < 0:
+                        ref = avg if hi[ax] == mc.dims[ax] + 1 else p1
+                    else:
+                        ref = avg
+                    if not abs(arr[k] - ref) <= 1e-12 * max(1.0, abs(ref)):
+                        bad = (k, arr[k], ref); break
+                S.check(bad is None, f"C11:upwind:{kind}", "upwindMean is not the donor value (boundary value on inflow boundary faces, average where u = 0)",
+                        {**inp, "axis": ax}, None if bad is None else bad[1], None if bad is None else bad[2])
+        except Exception as ex:
+            S.check(False, f"C11:upwind:{kind}:exception", repr(ex), inp, repr(ex), "no exception")
+        # linear mean reproduces linear fields at the face positions
+        m = mc.m
+        coef = [rng.choice([1.0, -2.0, 0.5]) for _ in range(mc.dim)]
+        cen = []
+        for ax, nm in enumerate(["_x", "_y", "_z"][:mc.dim]):
+            f = np.asarray(getattr(m.facecenters, nm), dtype=float)
+            c = np.asarray(getattr(m.cellcenters, nm), dtype=float)
+            ds = np.asarray(getattr(m.cellsize, nm), dtype=float)
+            cen.append(np.hstack([f[0] - ds[0] / 2, c, f[-1] + ds[-1] / 2]))
+        grids = np.meshgrid(*cen, indexing="ij")
+        lin = 0.75 + sum(cf * g for cf, g in zip(coef, grids))
+        try:
+            out = pf.linearMean(full_cellvar(mc, lin))
+            for ax, arr in enumerate(facevar_arrays(mc, out)):
+                f = np.asarray(getattr(m.facecenters, ["_x", "_y", "_z"][ax]), dtype=float)
+                cc = [np.asarray(getattr(m.cellcenters, nm), dtype=float) for nm in ["_x", "_y", "_z"][:mc.dim]]
+                cc[ax] = f
+                gg = np.meshgrid(*cc, indexing="ij")
+                ref = 0.75 + sum(cf * g for cf, g in zip(coef, gg))
+                ok = np.allclose(np.asarray(arr, dtype=float), ref, rtol=1e-9, atol=1e-9)
+                S.check(bool(ok), f"C11:linear-exact:{kind}", "linearMean does not reproduce a linear field at the face positions", case_of(mc, coef=coef), None, None)
+        except Exception as ex:
+            S.check(False, f"C11:linear-exact:{kind}:exception", repr(ex), case_of(mc, coef=coef), repr(ex), "no exception")
+        if len(S.samples) < 2:
+            S.samples.append(inp)
+    return S
+
+
+# ------------------------------------------------------------------ C03
+
+def metric_factor(mc, ax, idx_interior):
+    """m of DESIGN §3.3 for the boundary-normal direction `ax` at the interior cell (0-based interior index tuple)"""
+    m = mc.m
+    k = mc.kind
+    if ax == 1 and k in ("pol2", "cyl3", "sph3"):
+        return float(m.cellcenters._x[idx_interior[0]])
+    if ax == 2 and k == "sph3":
+        return float(m.cellcenters._x[idx_interior[0]] * np.sin(m.cellcenters._y[idx_interior[1]]))
+    return 1.0
+
+
+def robin_check(S, mc, bc, V, where, inp):
+    """V: ghosted array. Face-by-face Robin residual / periodic wrap on every side."""
+    dims = mc.dims
+    sizes = [np.asarray(getattr(mc.m.cellsize, nm), dtype=float) for nm in ["_x", "_y", "_z"][:mc.dim]]
+    for ax in range(mc.dim):
+        lo_f, hi_f = getattr(bc, SIDES[2 * ax]), getattr(bc, SIDES[2 * ax + 1])
+        periodic = bool(lo_f.periodic or hi_f.periodic)
+        cross = [range(1, n + 1) for a, n in enumerate(dims) if a != ax]
+        worst = None
+        for cr in itertools.product(*cross):
+            def full(i):
+                l = list(cr); l.insert(ax, i); return tuple(l)
+            cidx = tuple(x - 1 for x in cr)   # 0-based cross index into the BC arrays
+            for side, f in ((0, lo_f), (1, hi_f)):
+                ic = 1 if side == 0 else dims[ax]
+                ig = 0 if side == 0 else dims[ax] + 1
+                vc, vg = float(V[full(ic)]), float(V[full(ig)])
+                if periodic:
+                    ref = float(V[full(dims[ax] if side == 0 else 1)])
+                    ok = abs(vg - ref) <= 1e-12 * max(1.0, abs(ref))
+                    if not ok and worst is None:
+                        worst = ("periodic-wrap", ax, side, cr, vg, ref)
+                    continue
+                a = float(np.asarray(f.a).reshape(bc_face_shapes(mc)[2 * ax + side])[cidx] if mc.dim > 1 else np.asarray(f.a).ravel()[0])
+                b = float(np.asarray(f.b).reshape(bc_face_shapes(mc)[2 * ax + side])[cidx] if mc.dim > 1 else np.asarray(f.b).ravel()[0])
+                c = float(np.asarray(f.c).reshape(bc_face_shapes(mc)[2 * ax + side])[cidx] if mc.dim > 1 else np.asarray(f.c).ravel()[0])
+                ii = [x - 1 for x in full(ic)]
+                mfac = metric_factor(mc, ax, ii)
+                dxg = float(sizes[ax][ig])
+                ghost_coef = (a / (mfac * dxg) if side == 1 else -a / (mfac * dxg)) + b / 2
+                cell_coef = (-a / (mfac * dxg) if side == 1 else a / (mfac * dxg)) + b / 2
+                scale = abs(a / (mfac * dxg)) * (abs(vc) + abs(vg)) + abs(b) * (abs(vc) + abs(vg)) / 2 + abs(c)
+                if abs(ghost_coef) <= 1e-9 * (abs(a / (mfac * dxg)) + abs(b)):
+                    continue          # excluded singular point: the relation does not involve the ghost value
+                if not (math.isfinite(vg) and math.isfinite(vc)):
+                    if worst is None:
+                        worst = ("non-finite", ax, side, cr, vg, None)
+                    continue
+                quot = (vg - vc) / (mfac * dxg) if side == 1 else (vc - vg) / (mfac * dxg)
+                res = a * quot + b * (vc + vg) / 2 - c
+                if abs(res) > 1e-9 * max(scale, 1e-300) and worst is None:
+                    worst = ("robin", ax, side, cr, res, 0.0)
+        S.check(worst is None, f"C03:{where}:{'periodic' if periodic else 'robin'}:{mc.kind}:axis{ax}",
+                f"boundary values after {where} do not satisfy the configured condition on axis {ax}", {**inp, "after": where},
+                None if worst is None else list(map(str, worst)), "a*dphi/dn + b*phi = c on every face / wrap on periodic axes only")
+
+
+class RecordingSolver:
+    def __init__(self):
+        self.calls = []
+
+    def __call__(self, M, RHS):
+        from scipy.sparse.linalg import spsolve
+        x = spsolve(M, RHS)
+        self.calls.append((M.copy(), np.array(RHS, copy=True), np.array(x, copy=True)))
+        return x
+
+
+def search_c03(rng, n, S=None, kinds=None):
+    S = S or Search("C03")
+    for t in range(n):
+        kind = (kinds or KINDS)[t % len(kinds or KINDS)]
+        mc = rand_mesh(rng, kind, nmax=4)
+        spec = rand_bc_spec(rng, mc)
+        vals = rand_vals(rng, mc.shape(), rng.choice(["mixed", "pos"]))
+        inp = case_of(mc, bc=bc_describe(spec), interior=vals)
+        S.sig(kind, tuple(mc.dims), tuple(s["kind"][0] + ("P" if s["periodic"] else "") for s in spec))
+        try:
+            bc = make_bcs(mc, spec)
+            phi = pf.CellVariable(mc.m, vals.copy(), bc)
+            robin_check(S, mc, bc, np.asarray(phi._value), "construction", inp)
+            # edit BC + apply_BCs
+            side = rng.choice(SIDES[:2 * mc.dim])
+            getattr(bc, side).c[:] = rng.choice([0.5, -1.0, 2.0])
+            phi.apply_BCs()
+            robin_check(S, mc, bc, np.asarray(phi._value), "apply_BCs", inp)
+            # explicit step
+            RHS = np.zeros(int(np.prod(mc.gshape())))
+            RHS[:] = rand_vals(rng, mc.gshape()).ravel()
+            phi2 = pf.solveExplicitPDE(phi, 0.125, RHS)
+            robin_check(S, mc, phi2.BCs, np.asarray(phi2._value), "solveExplicitPDE", inp)
+            # implicit step with a recording solver
+            D = pf.FaceVariable(mc.m, 1.0)
+            rec = RecordingSolver()
+            dt = rng.choice([0.1, 1.0, 10.0])
+            pf.solvePDE(phi, [pf.transientTerm(phi, dt, 1.0), -pf.diffusionTerm(D)], externalsolver=rec)
+            if np.all(np.isfinite(np.asarray(phi._value))):
+                robin_check(S, mc, bc, np.asarray(phi._value), "solvePDE", inp)
+                xs = rec.calls[-1][2].reshape(mc.gshape())
+                rep = np.asarray(phi._value)
+                # compare face ghosts the solver computed with the reported ones
+                mask = np.zeros(mc.gshape(), dtype=bool)
+                for ax in range(mc.dim):
+                    sl = [slice(1, -1)] * mc.dim
+                    sl[ax] = 0; mask[tuple(sl)] = True
+                    sl[ax] = -1; mask[tuple(sl)] = True
+                sc = max(1.0, float(np.max(np.abs(rep[np.isfinite(rep)]))))
+                diff = np.abs(xs - rep)[mask]
+                ok = bool(np.all(diff <= 1e-8 * sc))
+                per_uneq = any((getattr(bc, SIDES[2 * ax]).periodic or getattr(bc, SIDES[2 * ax + 1]).periodic)
+                               and abs(np.asarray(getattr(mc.m.cellsize, ["_x", "_y", "_z"][ax]))[1] - np.asarray(getattr(mc.m.cellsize, ["_x", "_y", "_z"][ax]))[-2]) > 1e-12
+                               for ax in range(mc.dim))
+                key = "periodic-unequal-end-cells" if (not ok and per_uneq) else f"C03:solver-vs-reported:{kind}"
+                S.check(ok, key, "ghost unknowns computed by the solver differ from the boundary values reported afterwards", inp,
+                        float(np.max(diff)) if diff.size else 0.0, 0.0)
+            # scaling (a,b,c) by a non-zero factor changes nothing
+            lam = rng.choice([2.0, -3.0, 0.5])
+            spec2 = [dict(s, a=s["a"] * lam, b=s["b"] * lam, c=s["c"] * lam) for s in spec]
+            bcA, bcB = make_bcs(mc, spec), make_bcs(mc, spec2)
+            pA = pf.CellVariable(mc.m, vals.copy(), bcA); pB = pf.CellVariable(mc.m, vals.copy(), bcB)
+            pf.solvePDE(pA, [pf.transientTerm(pA, dt, 1.0), -pf.diffusionTerm(D)])
+            pf.solvePDE(pB, [pf.transientTerm(pB, dt, 1.0), -pf.diffusionTerm(D)])
+            a_, b_ = np.asarray(pA.value), np.asarray(pB.value)
+            if np.all(np.isfinite(a_)) and np.all(np.isfinite(b_)):
+                sc = max(1.0, float(np.max(np.abs(a_))))
+                S.check(bool(np.all(np.abs(a_ - b_) <= 1e-7 * sc)), f"C03:scale-invariance:{kind}", "multiplying (a,b,c) by a non-zero factor changed the solution",
+                        {**inp, "factor": lam}, float(np.max(np.abs(a_ - b_))), 0.0)
+            # plotprofile boundary entries are the face averages (1-D)
+            if mc.dim == 1:
+                x, prof = phi.plotprofile()
+                V = np.asarray(phi._value)
+                ok = abs(prof[0] - 0.5 * (V[0] + V[1])) <= 1e-12 * max(1, abs(prof[0])) and abs(prof[-1] - 0.5 * (V[-1] + V[-2])) <= 1e-12 * max(1, abs(prof[-1]))
+                S.check(bool(ok) or not np.all(np.isfinite(V)), f"C03:plotprofile:{kind}", "plot profile boundary entries are not the face averages", inp, None, None)
+        except ValueError as ex:
+            S.check("Radial periodic" in str(ex) and RADIAL[kind] and (spec[0]["periodic"] or spec[1]["periodic"]),
+                    f"C03:{kind}:exception", repr(ex), inp, repr(ex), "no exception")
+        except Exception as ex:
+            S.check(False, f"C03:{kind}:exception", repr(ex), inp, repr(ex), "no exception")
+        if len(S.samples) < 2:
+            S.samples.append(inp)
+    return S
+
+
+def replay_c03(body):
+    inp = body["input"]
+    mc = mesh_from_case(inp)
+    spec = [{"kind": s["kind"], "periodic": s["periodic"], "a": np.array(s["a"]), "b": np.array(s["b"]), "c": np.array(s["c"])} for s in inp["bc"]]
+    S = Search("C03")
+    bc = make_bcs(mc, spec)
+    phi = pf.CellVariable(mc.m, np.array(inp["interior"]), bc)
+    robin_check(S, mc, bc, np.asarray(phi._value), "construction", inp)
+    rec = RecordingSolver()
+    D = pf.FaceVariable(mc.m, 1.0)
+    pf.solvePDE(phi, [pf.transientTerm(phi, 1.0, 1.0), -pf.diffusionTerm(D)], externalsolver=rec)
+    robin_check(S, mc, bc, np.asarray(phi._value), "solvePDE", inp)
+    xs = rec.calls[-1][2].reshape(mc.gshape())
+    rep = np.asarray(phi._value)
+    mask = np.zeros(mc.gshape(), dtype=bool)
+    for ax in range(mc.dim):
+        sl = [slice(1, -1)] * mc.dim
+        sl[ax] = 0; mask[tuple(sl)] = True
+        sl[ax] = -1; mask[tuple(sl)] = True
+    d = float(np.max(np.abs(xs - rep)[mask]))
+    ok = not S.violations and d <= 1e-8 * max(1.0, float(np.max(np.abs(rep))))
+    return ok, f"replay C03 on {mc.kind}: robin/wrap violations={len(S.violations)}, max |solver ghost - reported ghost|={d:.3e} -> {'holds' if ok else 'FAILS'}"
